@@ -29,6 +29,10 @@ func (stdio) Close() error                { return nil }
 
 func main() {
 	if len(os.Args) >= 4 && os.Args[2] == "-s" && os.Args[3] == "sftp" {
+		if spec := os.Getenv("SHIM_SFTP_FAULT"); spec != "" {
+			serveFaulty(spec)
+			return
+		}
 		srv, err := sftp.NewServer(stdio{})
 		if err != nil {
 			fmt.Fprintln(os.Stderr, err)
